@@ -4,13 +4,15 @@ import AvoVerif.Model.Layout
 Protocol of C07 (tokens separated by one space).
 
 type   := `b <basic>` | `p <type>` | `s <type>` | `a <n> <type>` | `t <k> (<field> <type>)^k` | `n <name> <type>`
+          | `l <name> <type>` (alias `type name = type`; transparent like a defined type)
+          | `o eface|iface|map|chan|func` (kinds without components)
 group  := `<k> <name>^k <type>`                 (k = 0: unnamed)
 sig    := `<np> group^np <nr> group^nr`
 sel    := `at:<int>` | `name:<ident>`
 step   := `base|len|cap|real|imag|i:<int>|f:<name>|d:<reg>`
 path   := `<n> step^n`
 
-resolve <sig> <P|R> <sel> <path>                → `ok <sym|-> <disp> <base> <basic>` | `err` | `free`
+resolve <sig> <P|R> <sel> <path>                → `ok <sym|-> <disp> <base> <basic>` | `err`
 accept-resolve <sig> <P|R> <sel> <path> => <ok <sym|-> <disp> <base> <basic> <asmtext> | err | panic>
 argsize <sig>                                   → `<total bytes>`
 accept-argsize <sig> <total>                    → ok | bad-argsize want <n>
@@ -47,6 +49,15 @@ def parseTy : Nat → List String → Option (Ty × List String)
       | some k => (parseFields f k ts).map (fun (fs, ts) => (Ty.struct fs, ts))
       | none => none
     | "n" :: name :: ts => (parseTy f ts).map (fun (u, ts) => (Ty.named name.toList u, ts))
+    | "l" :: name :: ts => (parseTy f ts).map (fun (u, ts) => (Ty.named name.toList u, ts))
+    | "o" :: k :: ts =>
+      match k with
+      | "eface" => some (Ty.other .eface, ts)
+      | "iface" => some (Ty.other .iface, ts)
+      | "map" => some (Ty.other .map, ts)
+      | "chan" => some (Ty.other .chan, ts)
+      | "func" => some (Ty.other .func, ts)
+      | _ => none
     | _ => none
 def parseFields : Nat → Nat → List String → Option (Fields × List String)
   | 0, _, _ => none
@@ -141,18 +152,6 @@ def handle : Handler
     let (isRet, rest) ← retTok rest
     let (sel, rest) ← selTok rest
     let (path, _) ← listOf stepTok rest
-    -- selector + path valid and ending at a defined (named) scalar: the property
-    -- leaves it free whether avo resolves it
-    let selOk := match sel with
-      | .at _ => true
-      | .name n => declared (s.groups isRet) n
-    let free := selOk && (match (selTops s isRet sel).getLast? with
-      | some top =>
-        match pathTy top.ty path with
-        | some (.named n u) => (toPrimitive (Ty.named n u).under).isSome
-        | _ => false
-      | none => false)
-    if free then some "free" else
     match resolve s isRet sel path with
     | .ok (a, b) => some (renderResolved a b)
     | .error _ => some "err"
